@@ -143,6 +143,6 @@ def run_case(case, rec, ctx):
 
 META = {
     "technique": "runtime post-condition on HelicityAmplitudeBuilder.formulate (closure of symbols: parameter xor kinematic variable, every amplitude defined, kinematic variables closed over four-momenta) over fixture and synthetic reactions x generated builder configurations, with a numeric evaluation subsample",
-    "level_text": "Every model returned by formulate() in the workload is judged by set algebra on expression.free_symbols, the Indexed amplitude atoms left in the unfolded intensity, the two key sets and the free symbols of every kinematic-variable expression after inserting the defaults; a subsample is evaluated end-to-end from generated four-momenta and must be finite, real and non-negative. Workload: all 70 qrules fixtures x 3 (thorough 25) configurations and 120 (thorough 2500) synthetic reactions (2..5 bodies, half-integer spins, massless, parity nodes, partial helicity sets, identical scalars).",
+    "level_text": "Every model returned by formulate() in the workload is judged by set algebra on expression.free_symbols, the Indexed amplitude atoms left in the unfolded intensity, the two key sets and the free symbols of every kinematic-variable expression after inserting the defaults; a subsample is evaluated end-to-end from generated four-momenta and must be finite, real and non-negative. Workload: all 70 qrules fixtures x 3 (thorough 25) configurations and 120 (thorough 2500) synthetic reactions (2..5 bodies, half-integer spins, massless, parity nodes, partial helicity sets, identical scalars). Every second case re-configures the same builder and formulates twice more (builder history); synthetic particle names are shuffled so that alphabetical and id order differ; general multi-topology synthetic reactions are included.",
     "level_note": "qrules and the synthetic generator define what a valid ReactionInfo is; exceptions raised by formulate() for a valid input are reported as violations.",
 }
